@@ -837,6 +837,15 @@ func run(ctx *Ctx) *Result {
 		}
 		res.Eval(canon, len(cmds) > 0)
 		res.Count(fmt.Sprintf("cmds:%02d", min(len(cmds)/3*3, 30)))
+		// a target that binds an access list it does not define is not a Netspoc output: correspondence only
+		for _, i := range c.spoc.Intfs {
+			for _, n := range []string{i.In, i.Out} {
+				if _, ok := c.spoc.ACLs[n]; n != "" && !ok {
+					res.Count("target-binds-undefined-acl(correspondence only)")
+					return
+				}
+			}
+		}
 		managed := map[string]bool{}
 		var intfs []string
 		for _, i := range c.spoc.Intfs {
@@ -1053,6 +1062,15 @@ func corpus() []cfgCase {
 			"ip access-list extended a\n permit ip any any\nip access-list extended c\n permit udp any any\n"+e0+" ip access-group a in\n ip access-group c out\n"),
 		// a route replaced twice to the same destination (F-C02rt, repaired)
 		mk(e0+"ip route 10.8.0.0 255.255.0.0 10.1.1.253\n", e0+"ip route 10.8.0.0 255.255.0.0 10.1.1.254\nip route 10.8.0.0 255.255.0.0 10.2.2.254\n"),
+		// target binds an access list it does not define (checkReferences drops the reference): kept / added
+		mk(e0+" ip access-group ghost out\n", e0+" ip access-group ghost out\n"),
+		mk(e0, e0+" ip access-group ghost in\n"),
+		mk("ip access-list extended ghost\n permit ip any any\n"+e0+" ip access-group ghost in\n", e0+" ip access-group ghost in\n"),
+		// both ACLs without entries
+		mk("ip access-list extended a\n"+e0+" ip access-group a in\n", "ip access-list extended b\n"+e0+" ip access-group b in\n"),
+		// F-C07c (repaired): an interface unknown to Netspoc shares its ACL with a managed one
+		mk("ip access-list extended e0_in\n permit tcp any any eq 22\n permit ip any any\n"+e0+" ip access-group e0_in in\ninterface Loopback7\n ip address 10.77.0.1 255.255.255.255\n ip access-group e0_in in\n",
+			"ip access-list extended e0_in\n permit ip any any\n"+e0+" ip access-group e0_in in\n"),
 		// routes of a VRF that has an interface but no routes in the target
 		mk(e0+"interface Ethernet1\n vrf forwarding V1\n ip address 10.2.2.1 255.255.255.0\nip route vrf V1 10.8.0.0 255.255.0.0 10.2.2.254\nip route 10.8.0.0 255.255.0.0 10.1.1.253\n",
 			e0+"interface Ethernet1\n vrf forwarding V1\n ip address 10.2.2.1 255.255.255.0\nip route 10.9.0.0 255.255.0.0 10.1.1.253\n"),
